@@ -473,7 +473,12 @@ def _put_one_constant(
     if (value < 0 if isinstance(value, (int, float)) else value.imag < 0 if isinstance(value, complex) else False):
         raise NodeError('Constant.value cannot be negative')
 
-    self._put_src(repr(value), *self.loc, True)
+    src = repr(value)
+
+    if value.__class__ is float:
+        src = src.replace('inf', '1e309')  # 'inf' is a Name in source, same substitution as ast.unparse()
+
+    self._put_src(src, *self.loc, True)
 
     ast = self.a
     ast.value = value
